@@ -1,1 +1,146 @@
-//! ntpd facade fragment "sock": re-exports / wrappers (and per-run thread-local seams) for the world that owns it.
+//! ntpd facade fragment "sock" (owned by world w8/w9, hook H11): a simulated
+//! unix datagram endpoint that replaces `tokio::net::UnixDatagram` inside
+//! `daemon/sock_source.rs` under the verif guard, plus a wrapper to start the
+//! real `SockSourceTask`.
+//!
+//! The endpoint is a per-thread (= per simulated run) queue + waker. It mirrors
+//! the two properties of a real `AF_UNIX/SOCK_DGRAM` `recv(2)` that matter to the
+//! task: one call returns one datagram, and a datagram longer than the caller's
+//! buffer is silently cut to the buffer length (the return value is the number
+//! of bytes copied, the excess is discarded; no MSG_TRUNC is requested by tokio).
+//! Nothing here draws randomness: the simulator decides what is queued and when.
+
+use std::cell::RefCell;
+use std::collections::VecDeque;
+use std::path::{Path, PathBuf};
+use std::task::{Poll, Waker};
+
+pub use super::super::ntp_source::{MsgForSystem, SourceChannels};
+
+enum Item {
+    Data(Vec<u8>),
+    Error(std::io::ErrorKind),
+}
+
+#[derive(Default)]
+struct Endpoint {
+    bound: Vec<PathBuf>,
+    queue: VecDeque<Item>,
+    waker: Option<Waker>,
+    /// number of queue items handed to `recv` callers so far
+    consumed: u64,
+    /// buffer length the most recent `recv` caller offered
+    last_buf_len: usize,
+    fail_next_bind: bool,
+}
+
+thread_local! {
+    static EP: RefCell<Endpoint> = RefCell::new(Endpoint::default());
+}
+
+/// Stand-in for `tokio::net::UnixDatagram` (only the surface sock_source.rs uses).
+#[derive(Debug)]
+pub struct UnixDatagram {
+    _private: (),
+}
+
+impl UnixDatagram {
+    pub fn bind<P: AsRef<Path>>(path: P) -> std::io::Result<UnixDatagram> {
+        EP.with(|e| {
+            let mut e = e.borrow_mut();
+            if e.fail_next_bind {
+                e.fail_next_bind = false;
+                return Err(std::io::Error::new(std::io::ErrorKind::PermissionDenied, "simulated bind failure"));
+            }
+            e.bound.push(path.as_ref().to_path_buf());
+            Ok(UnixDatagram { _private: () })
+        })
+    }
+
+    /// Cancel safe: an item leaves the queue only in the poll that returns it.
+    pub async fn recv(&self, buf: &mut [u8]) -> std::io::Result<usize> {
+        std::future::poll_fn(|cx| {
+            EP.with(|e| {
+                let mut e = e.borrow_mut();
+                e.last_buf_len = buf.len();
+                match e.queue.pop_front() {
+                    Some(Item::Data(d)) => {
+                        e.consumed += 1;
+                        let n = d.len().min(buf.len());
+                        buf[..n].copy_from_slice(&d[..n]);
+                        Poll::Ready(Ok(n))
+                    }
+                    Some(Item::Error(kind)) => {
+                        e.consumed += 1;
+                        Poll::Ready(Err(std::io::Error::new(kind, "simulated recv error")))
+                    }
+                    None => {
+                        e.waker = Some(cx.waker().clone());
+                        Poll::Pending
+                    }
+                }
+            })
+        })
+        .await
+    }
+}
+
+/// Start of a run: forget everything.
+pub fn reset() {
+    EP.with(|e| *e.borrow_mut() = Endpoint::default());
+}
+
+fn wake() {
+    let w = EP.with(|e| e.borrow_mut().waker.take());
+    if let Some(w) = w {
+        w.wake();
+    }
+}
+
+/// The simulated GPSd sends one datagram.
+pub fn push_datagram(bytes: Vec<u8>) {
+    EP.with(|e| e.borrow_mut().queue.push_back(Item::Data(bytes)));
+    wake();
+}
+
+/// The next `recv` fails with this error kind.
+pub fn push_error(kind: std::io::ErrorKind) {
+    EP.with(|e| e.borrow_mut().queue.push_back(Item::Error(kind)));
+    wake();
+}
+
+pub fn fail_next_bind() {
+    EP.with(|e| e.borrow_mut().fail_next_bind = true);
+}
+
+/// Items (datagrams and errors) handed to the task so far.
+pub fn consumed() -> u64 {
+    EP.with(|e| e.borrow().consumed)
+}
+
+pub fn queued() -> usize {
+    EP.with(|e| e.borrow().queue.len())
+}
+
+pub fn last_buf_len() -> usize {
+    EP.with(|e| e.borrow().last_buf_len)
+}
+
+pub fn bound_paths() -> Vec<PathBuf> {
+    EP.with(|e| e.borrow().bound.clone())
+}
+
+/// The real `SockSourceTask::spawn` (private module `daemon::sock_source`).
+pub fn spawn_sock_source<C, Controller>(
+    index: ntp_proto::ClockId,
+    socket_path: PathBuf,
+    clock: C,
+    channels: SourceChannels,
+    source: ntp_proto::OneWaySource<Controller>,
+) -> tokio::task::JoinHandle<()>
+where
+    C: 'static + ntp_proto::NtpClock + Send + Sync,
+    Controller: ntp_proto::SourceController,
+{
+    super::super::sock_source::SockSourceTask::spawn(index, socket_path, clock, channels, source)
+}
